@@ -64,11 +64,11 @@ def parseArgsAux : Str → Str → Option Char → List Str → List Str
   | c :: r, cur, q, acc =>
     match q with
     | none =>
-      if c == '"' || c == '\'' then parseArgsAux r cur (some c) acc
+      if c == '"' || c == '\'' then parseArgsAux r (cur ++ [c]) (some c) acc   -- the quotes stay in the argument text (fix: a quoted argument is a string literal)
       else if c == ',' then (if cur == [] then parseArgsAux r [] none acc else parseArgsAux r [] none (acc ++ [trimSpace cur]))
       else parseArgsAux r (cur ++ [c]) none acc
     | some qc =>
-      if c == qc then parseArgsAux r cur none acc
+      if c == qc then parseArgsAux r (cur ++ [c]) none acc
       else parseArgsAux r (cur ++ [c]) (some qc) acc
 
 def parseArgs (s : Str) : List Str := parseArgsAux (trimSpace s) [] none []
